@@ -1665,7 +1665,7 @@ def apply_sustain_control_changes(note_sequence, sustain_control_number=64):
   for instrument in active_notes.values():
     for note in instrument:
       note.end_time = time
-      sequence.total_time = time
+      sequence.total_time = max(sequence.total_time, time)
 
   return sequence
 
